@@ -230,6 +230,7 @@ class Program:
             self.modules[rel] = tree
             self.files[rel] = rel
             self.sources[rel] = src
+        self.inline_findings: list = []
         self.inline_log = self._inline_unreviewed_helpers()
         for rel, tree in self.modules.items():
             self._index_module(rel, tree)
@@ -256,7 +257,7 @@ class Program:
                     unknown = True
         if not unknown:
             return []
-        log = inline_unknown_helpers(self.modules, known)
+        log, self.inline_findings = inline_unknown_helpers(self.modules, known)
         if log:
             for tree in self.modules.values():
                 canonicalise(tree)
